@@ -15,7 +15,9 @@ EXPLANATION = (
     "(Actions enum vs MOVES), SlidingTilePuzzle (named vectors), LevelBasedForaging (action constants vs MOVES), "
     "Connector (lambda names vs displacements, switch order vs NOOP..LEFT constants, the generator's displacement-to-"
     "action pairs), PacMan (the three copies of the player move table agree), RobotWarehouse (forward displacements "
-    "are unit steps and opposite directions cancel). Tables are folded by the analyser's literal evaluator. "
+    "are unit steps and opposite directions cancel). Tables are folded by the analyser's literal evaluator. (R2) the "
+    "index arithmetic of transition code on non-square boards (row-major stride of flat indices such as Minesweeper's mine "
+    "lookup, wrap-around moduli, bounds tests) uses the extent of the right axis (axis-kind engine shared with C07). "
     "Not decided: everything that needs executing a reference model (2048 merges, Tetris drop and line clearing, Sokoban "
     "pushes, JobShop clock, Minesweeper counts, ...).")
 
@@ -28,7 +30,11 @@ def check(tier: str) -> Result:
     n = table_rules.add_obligations(res, tree, "C09.R1")
     if n < MIN_PAIRINGS:
         raise AnalysisError(f"only {n} table pairings derived (hand-confirmed minimum {MIN_PAIRINGS})")
-    res.analysed = {"table_pairings": n}
+    # ---- R2: index arithmetic of the transition code (stride of flat indices, wrap-around, bounds) uses the
+    # extent of the right axis -- the axis-kind engine of C07 (shared)
+    from . import axis_rules
+    n_axis = axis_rules.add_obligations(res, tree, "C09.R2", scope="all")
+    res.analysed = {"table_pairings": n, "axis_typed_sites": n_axis}
     res.assumptions = ["direction names in the code carry their usual meaning (up = previous row, left = previous column)",
                        "PacMan is excluded from the naming convention (its x/y naming is transposed); only sibling agreement is checked there"]
     return res
